@@ -9,7 +9,7 @@ RULE = ("cases = (number of fields 1..3, common length, selector / concatenation
 ASSUMPTIONS = ["oracle: numpy indexing / concatenation of each field array on its own", "field contents are distinct per field and row so a misaligned entry is visible"]
 REQUIRED_FEATURES = ["three_fields", "two_dim_field", "zero_length", "mask_selector", "list_with_repeats", "mismatch_refused", "varlen_widths_differ",
                      "concat_triple", "single_entry", "astype_reordered_fields", "equality_other_field_shape", "inherited_class",
-                     "two_dim_first_field", "index_array_selector"]
+                     "two_dim_first_field", "index_array_selector", "simultaneous_iterations"]
 BOUNDS = {"quick": "1-3 fields (1-D int, 2-D int, 1-D float) x length 0..4 x {every int, 27 slices, lists of length<=2 incl. empty, every mask} + iteration, "
                    "concatenate pairs and triples with lengths 0..3, equality, astype to a narrower class, fields one entry longer/shorter; VarLenArray "
                    "concatenation widths 1..3 x lengths 0..2 (pairs) and triples",
@@ -136,8 +136,14 @@ def cases(shard, tier):
                     yield ["mismatch", k, n, d, which]
 
 
+def tl(x):
+    """shape and content of a column (an empty selection of a 2-D column is (0, w), not (0,))"""
+    x = np.asarray(x)
+    return [list(x.shape), x.tolist()]
+
+
 def tup(o):
-    return [np.asarray(x).tolist() for x in o.shallow_tuple()]
+    return [tl(x) for x in o.shallow_tuple()]
 
 
 def _cmp(acc, name, exp, f):
@@ -170,7 +176,7 @@ def _check_layout(case, acc):
         else:
             if sel[0] == "a":
                 acc.feature("index_array_selector")
-            _cmp(acc, f"layout {lay}: obj[{sel[0]}]", e, lambda: tup(mk()[s]))
+            _cmp(acc, f"layout {lay}: obj[{sel[0]}]", [tl(x[s2]) for x in f], lambda: tup(mk()[s]))
             _cmp(acc, f"layout {lay}: len(obj[sel])", len(e[0]), lambda: len(mk()[s]))
     elif kind == "iter2":
         e = [[x[i].tolist() for x in f] for i in range(n)]
@@ -178,7 +184,7 @@ def _check_layout(case, acc):
         _cmp(acc, f"layout {lay}: len", n, lambda: len(mk()))
     else:
         f2 = fields2(lay, 2, 1)
-        _cmp(acc, f"layout {lay}: concatenate", [np.concatenate([x, y, x]).tolist() for x, y in zip(f, f2)],
+        _cmp(acc, f"layout {lay}: concatenate", [tl(np.concatenate([x, y, x])) for x, y in zip(f, f2)],
              lambda: tup(np.concatenate([mk(), K(*[x.copy() for x in f2]), mk()])))
         _cmp(acc, f"layout {lay}: equality-self", True, lambda: bool(mk() == mk()))
         if n:
@@ -223,20 +229,41 @@ def check(case, acc):
             acc.feature("single_entry")
             _cmp(acc, "obj[int]", e, lambda: [np.asarray(getattr(mk()[s], nm)).tolist() for nm in names])
         else:
-            _cmp(acc, f"obj[{case[3][0]}]", e, lambda: tup(mk()[s]))
+            _cmp(acc, f"obj[{case[3][0]}]", [tl(x[s2]) for x in f], lambda: tup(mk()[s]))
             _cmp(acc, "len(obj[sel])", len(e[0]), lambda: len(mk()[s]))
         _cmp(acc, "len", n, lambda: len(mk()))
     elif kind == "iter":
         e = [[x[i].tolist() for x in f] for i in range(n)]
-        _cmp(acc, "iter", e, lambda: [[np.asarray(getattr(x, nm)).tolist() for nm in names] for x in mk()])
+        ent = lambda x: [np.asarray(getattr(x, nm)).tolist() for nm in names]
+        _cmp(acc, "iter", e, lambda: [ent(x) for x in mk()])
+        # two iterations over the same table alive at once (zip with itself, a nested loop, a second pass)
+        acc.feature("simultaneous_iterations")
+
+        def zipped():
+            t = mk()
+            return [[ent(a), ent(b)] for a, b in zip(t, t)]
+        _cmp(acc, "zip(t, t)", [[r, r] for r in e], zipped)
+
+        def nested():
+            t = mk()
+            return [[ent(a), ent(b)] for a in t for b in t]
+        _cmp(acc, "nested iteration", [[a, b] for a in e for b in e], nested)
+
+        def twice():
+            t = mk()
+            i1 = iter(t)
+            first = [ent(next(i1))] if n else []
+            second = [ent(x) for x in t]
+            return first + [ent(x) for x in i1], second
+        _cmp(acc, "second pass while the first is open", (e, e), twice)
     elif kind in ("cat", "eq"):
         m = case[3]
         f2 = fields(k, m, 1)
         mk2 = lambda: K(*[x.copy() for x in f2])
         if kind == "cat":
-            _cmp(acc, "concatenate-pair", [np.concatenate([x, y]).tolist() for x, y in zip(f, f2)], lambda: tup(np.concatenate([mk(), mk2()])))
+            _cmp(acc, "concatenate-pair", [tl(np.concatenate([x, y])) for x, y in zip(f, f2)], lambda: tup(np.concatenate([mk(), mk2()])))
             acc.feature("concat_triple")
-            _cmp(acc, "concatenate-triple", [np.concatenate([x, y, x]).tolist() for x, y in zip(f, f2)], lambda: tup(np.concatenate([mk(), mk2(), mk()])))
+            _cmp(acc, "concatenate-triple", [tl(np.concatenate([x, y, x])) for x, y in zip(f, f2)], lambda: tup(np.concatenate([mk(), mk2(), mk()])))
             _cmp(acc, "len(concatenate)", n + m, lambda: len(np.concatenate([mk(), mk2()])))
         else:
             e = (n == m) and all(np.array_equal(x, y) for x, y in zip(f, f2))
@@ -278,7 +305,7 @@ def check(case, acc):
     elif kind == "eqself":
         _cmp(acc, "equality-self", True, lambda: bool(mk() == mk()))
     elif kind == "astype":
-        _cmp(acc, "astype-narrower", [f[1].tolist()], lambda: tup(mk().astype(C["b"])))
+        _cmp(acc, "astype-narrower", [tl(f[1])], lambda: tup(mk().astype(C["b"])))
         if k == 3:
             acc.feature("astype_reordered_fields")
             _cmp(acc, "astype-narrower-reordered", {"c": f[2].tolist(), "a": f[0].tolist()},
